@@ -14,7 +14,7 @@ from .. import rig as R, ref, gen, dump, hist
 from ..orch import h
 
 ID = "C09"
-TECHNIQUE = 'runtime monitoring - address model as constraints over consecutive dumps (older versions gone, a newest version kept, no other address touched) for all arrival orders of small histories and seeded long ones; unusual d tags, unindexable versions, low max_limit'
+TECHNIQUE = 'runtime monitoring - address model as constraints over consecutive dumps (older versions gone, a newest version kept, no other address touched) for all arrival orders of small histories and seeded long ones; unusual d tags, unindexable versions, low max_limit; end-to-end shard: a newer version accepted by one worker process, the superseded one read back on every worker (REQ and HTTP)'
 LEVEL = "exploration"
 RULE = (
     "universe: 2 authors x kinds {0,3,1,10000,19999,30000,39999} x d in {absent, bare [\"d\"], \"\", a, ab, abc, e-acute} "
@@ -30,12 +30,13 @@ RULE = (
 )
 EXHAUSTIVE = {"quick": False, "thorough": False}
 ASSUMPTIONS = [
+    "end-to-end shards: a real gunicorn/uvicorn server process tree started from the tree under test (vf/e2e_launch.py: the repository's run_with_gunicorn / run_with_uvicorn; the SQL schema is made with the repository's metadata.create_all because its alembic env.py does not run with the installed SQLAlchemy; the notifier's fixed TCP port 6000 is replaced by a free port), spoken to over loopback TCP with the websockets client; real time, real sleeps",
     "absent, bare and empty d tags denote the same address; the first d tag counts",
     "equal timestamps may be resolved either way; a late-arriving older version may be kept or dropped",
     "LMDB backend over /verif/shim (judged after writer idle); SQL = SQLite",
 ]
 MIN_NONTRIVIAL = {"quick": 400, "thorough": 4000}
-REQUIRED_COUNTERS = ["clause.older_removed", "clause.newest_kept", "clause.frame", "clause.refused_version_frame", "clause.odd_d_tag", "clause.low_max_limit_steps", "clause.many_versions"]
+REQUIRED_COUNTERS = ["e2e.e2e_worker_readbacks", "clause.older_removed", "clause.newest_kept", "clause.frame", "clause.refused_version_frame", "clause.odd_d_tag", "clause.low_max_limit_steps", "clause.many_versions"]
 SHARD_TIMEOUT = {"quick": 500, "thorough": 3000}
 KINDS = [0, 3, 1, 10000, 19999, 30000, 39999]
 DVALS = [None, "BARE", "", "a", "ab", "abc", "é"]
@@ -46,6 +47,16 @@ TS = [gen.T0 + 5, gen.T0 + 10, gen.T0 + 19, gen.T0 + 20, gen.T0 + 20, gen.T0 + 2
 
 
 def plan(tier, seed):
+    return _plan(tier, seed) + e2e_plan(tier, seed)
+
+
+def e2e_plan(tier, seed):
+    """shards on a REAL server process tree (vf/e2e.py)"""
+    out = [{"mode": "e2e", "e2e": "c08", "backend": b, "workers": 2, "seed": seed + 50} for b in ("sql", "lmdb")]
+    return out
+
+
+def _plan(tier, seed):
     nperm, nrand = (6, 6) if tier == "quick" else (24, 24)
     out = []
     for b in ("sql", "lmdb"):
@@ -309,6 +320,10 @@ async def run_many(backend, histories, counters, config=None):
 
 
 def run_shard(spec):
+    if spec.get("mode") == "e2e":
+        from .. import e2e_cases
+
+        return e2e_cases.run_e2e_shard(ID, spec)
     r = random.Random(spec["case_seed"])
     counters = {}
     if spec["mode"] == "perm":
@@ -339,6 +354,10 @@ def run_shard(spec):
 
 
 def replay(rp, spec):
+    if rp.get("mode") == "e2e":
+        from .. import e2e_cases
+
+        return e2e_cases.run_e2e_shard(ID, rp)
     counters = {}
     if rp.get("mode") == "many-versions":
         v, nt = R.run(run_many_versions, rp["backend"], counters, rp["seed"])
